@@ -49,8 +49,12 @@ def build_cases(tier):
 
 def modes_for(prop, rng):
     fully = rng.random() < (0.5 if prop == "C08" else 0.3)
-    return dict(fully_obs=fully, flat_actions=rng.random() < 0.8,
-                flat_obs=rng.random() < 0.5)
+    m = dict(fully_obs=fully, flat_actions=rng.random() < 0.8,
+             flat_obs=rng.random() < 0.5)
+    if rng.random() < 0.25:
+        # a rarely used constructor argument; nothing is rendered
+        m["render_mode"] = rng.choice(["ansi", "human"])
+    return m
 
 
 def episode(prop, mon, subj, rng, nsteps, acc):
